@@ -129,14 +129,19 @@ def interior_points(cls, src, nps, k=3):
     if cls == "CylinderSegment":
         r1, r2, h, p1, p2 = src.dimension
         r = nps.uniform(r1 + 0.1 * (r2 - r1), r2 - 0.1 * (r2 - r1), k)
-        phd = nps.uniform(p1 + 0.1 * (p2 - p1), p2 - 0.1 * (p2 - p1), k)
-        # the part of the range beyond +-180 degrees (where the observer's principal azimuth differs by a full turn) gets half of the points
+        # azimuths stratified over the range (one point per k-th of it, in random order) ...
+        w = p2 - p1
+        phd = p1 + w * (nps.permutation(k) + nps.uniform(0.1, 0.9, k)) / k
+        # ... and the part of the range beyond +-180 degrees (where the observer's principal azimuth differs by a full turn) gets
+        # every other point, the points in between stay spread over the whole range (both ends of it included over the cases)
         if p1 < -182:
             hi = min(p2, -180.0)
-            phd[: (k + 1) // 2] = nps.uniform(p1 + 0.05 * (hi - p1), hi - 0.05 * (hi - p1), (k + 1) // 2)
+            phd[::2] = nps.uniform(p1 + 0.05 * (hi - p1), hi - 0.05 * (hi - p1), len(phd[::2]))
         elif p2 > 182:
             lo = max(p1, 180.0)
-            phd[: (k + 1) // 2] = nps.uniform(lo + 0.05 * (p2 - lo), p2 - 0.05 * (p2 - lo), (k + 1) // 2)
+            phd[::2] = nps.uniform(lo + 0.05 * (p2 - lo), p2 - 0.05 * (p2 - lo), len(phd[::2]))
+        if k >= 2 and nps.random() < 0.5:
+            phd[1] = p2 - w * nps.uniform(0.03, 0.2)  # close to the upper end of the range
         ph = np.radians(phd)
         return np.stack([r * np.cos(ph), r * np.sin(ph), nps.uniform(-0.4, 0.4, k) * h], axis=1)
     if cls in ("Tetrahedron", "TriangularMesh"):
